@@ -109,6 +109,7 @@ func main() {
 		fmt.Fprintf(os.Stderr, "C11 %s cache=%v depth=%d: states=%d transitions=%d clean-runs=%d complete=%v\n", rn.fam.Name(), rn.cache, st.DepthDone, st.States, st.Transitions, e.Clean, st.Complete)
 		os.RemoveAll(e.Root)
 	}
+	os.RemoveAll(root) // r.Finish exits the process: deferred clean-up would not run
 	r.Assume = []string{
 		"plz is run hermetically as the real binary built from the working tree; one transition = one edit + `plz test --plain_output -n 1 //p:all`",
 		"a test 'executed' iff its test_cmd appended its label to the action log outside the repository; plz's '[cached]' marker is cross-checked against it",
@@ -258,5 +259,6 @@ func replay(r *lib.Run, plz, root string, w witness) {
 		}
 		st, src = ns, ed.Src
 	}
+	os.RemoveAll(root)
 	r.Finish(lib.Coverage{Evaluations: len(w.History), DistinctNontrivial: len(w.History), States: len(w.History), Transitions: len(w.History), TracesValidated: len(w.History), Samples: []any{w}, Exhaustive: true})
 }
